@@ -352,6 +352,80 @@ func transportCancel(bound int) *qx.Scenario {
 	return scn
 }
 
+// A Writer that owns its Transport (as NewWriter's do): WriteMessages cancelled and Close called at any point
+// of connection set-up and of the produce exchange. After Close, once the brokers have answered whatever was
+// outstanding, no connection the Writer's transport opened may stay open and no goroutine may remain.
+func writerOwnTransport(bound int) *qx.Scenario {
+	scn := &qx.Scenario{Name: "writer-owning-transport-close", Cfg: qx.Config{Horizon: 60 * time.Second, Quantum: 4 * time.Second, Grace: 8 * time.Second, MaxSteps: 300}}
+	scn.OnLeak = func(o *qx.Outcome) {
+		if o.Violation == "" {
+			o.Violation = "goroutines started through the Writer were still alive 8 s (virtual) after Close returned and every outstanding request was answered"
+			o.Sig = "writer-transport-leak"
+		}
+	}
+	scn.Body = func(x *qx.Exec) *qx.Outcome {
+		c := fk.New(1)
+		c.AddTopic("t", 1, nil)
+		c.OnEvent = x.Notify
+		tr := &kafka.Transport{Dial: c.Dial, DialTimeout: 3 * time.Second, IdleTimeout: 30 * time.Second, MetadataTTL: 6 * time.Second}
+		w := &kafka.Writer{Addr: kafka.TCP("b1:9092"), Topic: "t", Transport: tr, BatchTimeout: 10 * time.Millisecond, MaxAttempts: 1}
+		kafka.VerifOwnTransport(w, tr)
+		ctx, cancel := context.WithCancel(context.Background())
+		var mu sync.Mutex
+		werr, wdone, cancelled, closing := "", false, false, false
+		x.Go("T0", func() {
+			err := w.WriteMessages(ctx, kafka.Message{Value: []byte("v")})
+			mu.Lock()
+			werr, wdone = errName(err), true
+			mu.Unlock()
+		})
+		x.SetEnv(func() []qx.Action {
+			var acts []qx.Action
+			for _, e := range c.Pending() {
+				e := e
+				acts = append(acts, qx.Action{Label: fmt.Sprintf("ans#%d(api%d):ok", e.Seq, e.Key), Do: func() { c.Answer(e, "") }})
+			}
+			mu.Lock()
+			defer mu.Unlock()
+			if !cancelled && !wdone {
+				acts = append(acts, qx.Action{Label: "cancel-T0", Do: func() { mu.Lock(); cancelled = true; mu.Unlock(); cancel() }})
+			}
+			if !closing {
+				acts = append(acts, qx.Action{Label: "close", Do: func() {
+					mu.Lock()
+					closing = true
+					mu.Unlock()
+					x.Go("closer", func() { w.Close() })
+				}})
+			}
+			return acts
+		})
+		st := x.Run()
+		x.Release()
+		cancel()
+		w.Close()
+		// the brokers answer what is still outstanding (a handshake of a connection nobody waits for any more)
+		for i := 0; i < 6; i++ {
+			for _, e := range c.Pending() {
+				c.Answer(e, "")
+			}
+			time.Sleep(time.Second)
+		}
+		mu.Lock()
+		defer mu.Unlock()
+		o := &qx.Outcome{Key: fmt.Sprintf("%s write=%s cancelled=%v", st, werr, cancelled)}
+		if open := c.OpenConns(); len(open) > 0 {
+			o.Violation = fmt.Sprintf("connections %v opened by the Writer's transport are still open 6 s after Close returned (WriteMessages: %s)", open, werr)
+			o.Sig = "writer-transport-connection-left-open"
+		}
+		if st != qx.StDone && o.Violation == "" {
+			o.Violation, o.Sig = "WriteMessages/Close did not return within the horizon", "writer-transport-hang"
+		}
+		return o
+	}
+	return scn
+}
+
 func extraSuites(tier string) []qx.SuiteItem {
 	b := 2
 	if tier == "thorough" {
@@ -364,5 +438,6 @@ func extraSuites(tier string) []qx.SuiteItem {
 		{Scn: (&rscn{name: "reader-broker-down", faults: map[protocol.ApiKey][]string{protocol.Fetch: {"drop"}}, down: true}).scenario(), Bound: b},
 		{Scn: (&rscn{name: "group-reader-close-and-cancel", group: true, faults: gf}).scenario(), Bound: b},
 		{Scn: transportCancel(b + 1), Bound: b + 1},
+		{Scn: writerOwnTransport(b + 1), Bound: b + 1},
 	}
 }
